@@ -33,7 +33,7 @@ func c06UserWords(q string) []string {
 
 func engineNLPSubset(ctx *Ctx) {
 	r := vlib.NewRand(ctx.Seed, ctx.Shard, "nlpsubset")
-	nDB := ctx.N(160, 1600)
+	nDB := ctx.N(160, 8000)
 	nQ := ctx.Pick(60, 90)
 	for d := 0; d < nDB; d++ {
 		var db *database.Database
@@ -160,7 +160,7 @@ func engineNLPSubset(ctx *Ctx) {
 // with Keywords element for element, no duplicates, user's order, repeatable.
 func engineNLPAnalysis(ctx *Ctx) {
 	r := vlib.NewRand(ctx.Seed, ctx.Shard, "nlpanalysis")
-	n := ctx.N(40000, 400000)
+	n := ctx.N(40000, 2400000)
 	shared := nlp.NewQueryProcessor()
 	// analyses remembered over the whole run: a text analysed again much later - after hundreds of other texts,
 	// among them texts that differ from it only in punctuation or spacing - must still get the same analysis
